@@ -216,8 +216,11 @@ def run(tier):
     # a qualifier rule block
     synth = ('abi <abi/4.0>,\n\ninclude <tunables/global>\n\n@{exec_path} = @{bin}/verif-c18\nprofile verif-c18 @{exec_path} {\n  include <abstractions/base>\n\n'
              '  mount fstype=mqueue options=(rw nodev noexec nosuid)   mqueue -> /dev/mqueue/,\n\n  @{exec_path} mr,\n  @{bin}/{crux,prt-get} rPx,\n  @{bin}/pkgmk rPx -> crux,\n\n'
-             '  /etc/apparmor.d/abi/4.0 r,\n  /etc/{crux,pkgadd.conf} r,\n\n  owner {\n    /srv/verif-c18/own r,\n  }\n\n  include if exists <local/verif-c18>\n}\n')
-    ex = cfgx.Explorer(extra_src={'apparmor.d/groups/apps/verif-c18': synth})
+             '  /etc/apparmor.d/abi/4.0 r,\n  /etc/{crux,pkgadd.conf} r,\n\n  owner {\n    /srv/verif-c18/own r,\n  }\n\n  # profile pivoted {\n  #   /srv/verif-c18/p r,\n  # }\n\n  include if exists <local/verif-c18>\n}\n')
+    # ... and one distribution's flags manifest names it (third hunt): the manifest may change its header flags, not the
+    # qualifier block nor the commented-out header
+    debflags = open(os.path.join(C.REPO, 'dists/flags/debian.flags')).read().rstrip('\n') + '\nverif-c18 complain\n'
+    ex = cfgx.Explorer(extra_src={'apparmor.d/groups/apps/verif-c18': synth, 'dists/flags/debian.flags': debflags})
     try:
         trees = ex.build_all(cfgs)
     finally:
